@@ -5,12 +5,14 @@ import (
 	"context"
 	"fmt"
 	"io"
+	"net"
 	"runtime/debug"
 	"strings"
 	"time"
 
 	"github.com/cloudwego/hertz/pkg/common/config"
 	"github.com/cloudwego/hertz/pkg/common/hlog"
+	"github.com/cloudwego/hertz/pkg/network"
 	"github.com/cloudwego/hertz/pkg/network/standard"
 	"github.com/cloudwego/hertz/pkg/route"
 
@@ -55,6 +57,11 @@ type SrvOpts struct {
 	// HTTP/1 loop returns to the transport after every request; the harness re-enters
 	// Engine.Serve whenever the connection is readable again (what netpoll's OnRequest does).
 	ReturnToTransport bool
+	// SenseDisconnect: what the standard transport does with WithSenseClientDisconnection(true):
+	// the connection is wrapped in standard.NewStatefulConn and a second goroutine blocks in a
+	// read while the handler runs (the wrapper and that goroutine are hertz code; only the
+	// three-line "cancel unless timeout" callback of transport.serve is reproduced here).
+	SenseDisconnect bool
 }
 
 // Srv is the real route.Engine on a listener-less stub transporter; every
@@ -104,15 +111,16 @@ func (s *Srv) Start() {
 
 // SrvConn is one simulated connection to the server.
 type SrvConn struct {
-	Name     string
-	A, B     *core.SimConn // A: server end, B: peer (actor) end
-	Task     *core.Task
-	Err      error
-	Returned bool
-	PanicVal interface{}
-	PanicStk string
-	Rx       []byte // everything the server wrote, as received by the peer
-	Serves   int    // how often Engine.Serve was entered for this connection
+	Name      string
+	A, B      *core.SimConn // A: server end, B: peer (actor) end
+	Task      *core.Task
+	Err       error
+	Returned  bool
+	PanicVal  interface{}
+	PanicStk  string
+	Rx        []byte // everything the server wrote, as received by the peer
+	Serves    int    // how often Engine.Serve was entered for this connection
+	Cancelled bool   // SenseDisconnect: the connection context was cancelled by the detecting read
 }
 
 // Connect creates a connection and the task that serves it.
@@ -128,10 +136,23 @@ func (s *Srv) Connect(name string) *SrvConn {
 				a.Close()
 			}
 		}()
-		conn := standard.NewVerifConn(a, s.Opt.BufSize)
+		var conn network.Conn = standard.NewVerifConn(a, s.Opt.BufSize)
+		ctx := context.Background()
+		if s.Opt.SenseDisconnect && !s.Opt.ReturnToTransport {
+			cctx, cancel := context.WithCancel(ctx)
+			defer cancel()
+			ctx = cctx
+			conn = standard.NewStatefulConn(conn, func(err error) {
+				if ne, ok := err.(net.Error); ok && ne.Timeout() {
+					return
+				}
+				c.Cancelled = true
+				cancel()
+			})
+		}
 		for {
 			c.Serves++
-			c.Err = s.Eng.Serve(context.Background(), conn)
+			c.Err = s.Eng.Serve(ctx, conn)
 			if !s.Opt.ReturnToTransport || c.Err != nil || a.IsClosed() {
 				break
 			}
